@@ -68,3 +68,44 @@ def graph_dump(G):
 def graph_desc(G):
     return {"nodes": [[n, {k: (list(v) if isinstance(v, tuple) else v) for k, v in d.items() if k != "typesGH"}] for n, d in G.nodes(data=True)],
             "edges": [[u, v, {k: (list(x) if isinstance(x, tuple) else x) for k, x in d.items()}] for u, v, d in G.edges(data=True)]}
+
+
+def mol_node(el, h=0, q=0, arom=False, amap=0):
+    return dict(element=el, aromatic=arom, hcount=h, charge=q, atom_map=amap, neighbors=[])
+
+
+def random_mol_pair(rng, max_nodes=6, same_nodes=True):
+    """(G, H): reactant / product graphs on a shared node set (atom maps = node ids)"""
+    n = rng.randint(1, max_nodes)
+    ids = rng.sample(range(1, 30), n)
+    G, H = nx.Graph(), nx.Graph()
+    for i in ids:
+        el = rng.choice(ELEMS)
+        G.add_node(i, **mol_node(el, rng.randint(0, 3), rng.choice([0, 0, 1, -1]), rng.random() < 0.2, i))
+        if same_nodes or rng.random() < 0.8:
+            H.add_node(i, **mol_node(el, rng.randint(0, 3), rng.choice([0, 0, 1, -1]), rng.random() < 0.2, i))
+    for X in (G, H):
+        nodes = list(X.nodes)
+        for a, b in itertools.combinations(nodes, 2):
+            if rng.random() < 0.4:
+                X.add_edge(a, b, order=rng.choice([1, 2, 3, 1.5, 1.0, 2.0]))
+    return G, H
+
+
+def all_small_mol_pairs(n, elems=("C", "O"), orders=(1, 2)):
+    ids = list(range(1, n + 1))
+    pairs = list(itertools.combinations(range(n), 2))
+    for els in itertools.product(elems, repeat=n):
+        for lg in itertools.product((None,) + tuple(orders), repeat=len(pairs)):
+            for lh in itertools.product((None,) + tuple(orders), repeat=len(pairs)):
+                G, H = nx.Graph(), nx.Graph()
+                for i, el in zip(ids, els):
+                    G.add_node(i, **mol_node(el, 1, 0, False, i))
+                    H.add_node(i, **mol_node(el, 0, 0, False, i))
+                for (a, b), o in zip(pairs, lg):
+                    if o is not None:
+                        G.add_edge(ids[a], ids[b], order=o)
+                for (a, b), o in zip(pairs, lh):
+                    if o is not None:
+                        H.add_edge(ids[a], ids[b], order=o)
+                yield G, H
